@@ -896,7 +896,7 @@ impl MT104 {
         // Calculate sum of amounts in Sequence B
         let sum_of_amounts: f64 = self.transactions.iter().map(|tx| tx.field_32b.amount).sum();
 
-        let amounts_equal = (settlement_amount - sum_of_amounts).abs() < 0.01;
+        let amounts_equal = (settlement_amount - sum_of_amounts).abs() < 0.005;
 
         if amounts_equal && self.field_19.is_some() {
             return Some(SwiftValidationError::content_error(
@@ -927,7 +927,7 @@ impl MT104 {
             // Calculate sum of amounts in Sequence B
             let sum_of_amounts: f64 = self.transactions.iter().map(|tx| tx.field_32b.amount).sum();
 
-            if (field_19.amount - sum_of_amounts).abs() > 0.01 {
+            if (field_19.amount - sum_of_amounts).abs() > 0.005 {
                 return Some(SwiftValidationError::content_error(
                     "C01",
                     "19",
